@@ -54,12 +54,14 @@ Definition cfg11 : cfg :=
      single_char_ok := G11.valid_single_char |}.
 
 (* tag handlers, implemented identically in harness/h_dump.h *)
+Definition h4_data (v : node) : Z :=
+  match nval v with VInt n => if (1 <=? n) && (n <=? 1048576) then n else 42 | _ => 42 end.
 Definition builtin_handler (h : Z) (v : node) : option node * option bytes :=
   if h =? 0 then (Some v, None)                                        (* identity *)
   else if h =? 1 then (Some (mk (VVector [v]) 0 0), None)              (* wrap in a vector *)
   else if h =? 2 then (None, Some (lit "boom"))                        (* fail with a message *)
   else if h =? 3 then (None, None)                                     (* fail without message *)
-  else if h =? 4 then (Some (mk (VExternal 7 42) 0 0), None)           (* external value *)
+  else if h =? 4 then (Some (mk (VExternal 7 (h4_data v)) 0 0), None)  (* external value; data = the operand when it is a small integer *)
   else (Some (mk (VKeyword None (lit "replaced")) 0 0), None).         (* constant *)
 
 (* no external-type callbacks registered *)
@@ -90,3 +92,6 @@ Definition fuel_for (len : N) : nat := 8 + 4 * N.to_nat len.
 
 Definition run_doc (c : cfg) (o : opts) (m : mem) (len : N) : res result :=
   read_doc c o builtin_handler no_ext_equal no_ext_hash (isort c) m len (fuel_for len).
+(* the same with an external-type table in force (equality / hash callbacks by type id) *)
+Definition run_doc_x (c : cfg) (o : opts) (xe : Z -> option (Z -> Z -> bool)) (xh : Z -> option (Z -> Z)) (m : mem) (len : N) : res result :=
+  read_doc c o builtin_handler xe xh (isort c) m len (fuel_for len).
